@@ -29,6 +29,9 @@ pub struct Db {
     pub broken_as_sets: BTreeMap<String, Fault>,
     /// as-set whose members query makes the IRR connection break (every later read/write fails)
     pub reset_on_as_set: Option<String>,
+    /// every route6 query (!6) is answered with an error response ("the mirror has no IPv6 data"):
+    /// the client sinks those errors, so the reference treats every AS as having no route6 objects
+    pub fail_all_v6: bool,
 }
 
 impl Db {
@@ -79,7 +82,12 @@ impl Db {
         Some(out)
     }
     pub fn prefixes_of(&self, asn: &str) -> (Vec<String>, Vec<String>) {
-        self.routes.get(&asn.to_ascii_uppercase()).cloned().unwrap_or_default()
+        let (v4, v6) = self.routes.get(&asn.to_ascii_uppercase()).cloned().unwrap_or_default();
+        if self.fail_all_v6 {
+            (v4, Vec::new())
+        } else {
+            (v4, v6)
+        }
     }
 }
 
@@ -392,6 +400,10 @@ impl IrrState {
         if let Some(asn) = line.strip_prefix("!g") {
             let (v4, _) = self.db.prefixes_of(asn);
             return if v4.is_empty() && self.empty_is_not_found { "D\n".into() } else { data(&v4.join(" ")) };
+        }
+        if self.db.fail_all_v6 && line.starts_with("!6") {
+            self.faults_fired.push((k, line.to_string(), Fault::Other));
+            return "F no IPv6 data on this mirror\n".into();
         }
         if let Some(asn) = line.strip_prefix("!6") {
             let (_, v6) = self.db.prefixes_of(asn);
